@@ -1,6 +1,7 @@
 """C12 — runs are independent: a run never alters shared definitions or other runs."""
 import hashlib
 import json
+import os
 
 import c12_gen
 import c12_lang as L
@@ -8,6 +9,9 @@ import c12_run
 from core import PropBase, fail
 
 KIND_NAME = {'merge': 'contextmerge'}
+# C12_FIXED_MODEL=1: compare with the machine in which `in` / configvars deep-copy on injection
+# (Alias.step_fixed) - for evaluating the repair on a scratch copy of the repository
+STEP = 'step_fixed' if os.environ.get('C12_FIXED_MODEL') else 'step'
 
 
 def blame_kind(case, pname, idx):
@@ -98,16 +102,16 @@ class Prop(PropBase):
         if not L.in_model(case):
             return '2%nat'      # sets / foreach over a !py reference: monitors only
         if case.get('threads'):
-            return c12_run.coq_threads_check(case, obs)
+            return c12_run.coq_threads_check(case, obs, STEP)
         observed = '[' + '; '.join(L.coq_obs(r) for r in obs['runs']) + ']'
-        return f'(c12_check {L.coq_defs(case)} {L.coq_runs(case, c12_run.ORDER)} {observed})'
+        return f'(c12_check {STEP} {L.coq_defs(case)} {L.coq_runs(case, c12_run.ORDER)} {observed})'
 
     def coq_model_obs(self, case):
         if not L.in_model(case):
             return '2%nat'
         if case.get('threads'):
-            return c12_run.coq_threads_show(case)
-        return f'(c12_show {L.coq_defs(case)} {L.coq_runs(case, c12_run.ORDER)})'
+            return c12_run.coq_threads_show(case, STEP)
+        return f'(c12_show {STEP} {L.coq_defs(case)} {L.coq_runs(case, c12_run.ORDER)})'
 
     # ---------------------------------------------------------------- monitors (statement only)
     def monitor(self, case, obs):
